@@ -144,6 +144,8 @@ def interpret(log, rc, reason=""):
             out["reason"] = "unwinding assertion failed (bound too small): undecided"
         elif unsupported:
             out["reason"] = "unsupported construct reached: " + unsupported[0]["desc"][:200]
+        elif "Out of memory" in log[-4000:] or "CBMC failed with status 6" in log[-4000:]:
+            out["reason"] = "CBMC ran out of memory under the cap: undecided"
         else:
             out["reason"] = "VERIFICATION FAILED without an attributable failed check"
     else:
